@@ -207,7 +207,10 @@ def documented_misuse(kind, shape, picks):
             # documented for 'char *arg+intent(out)'; the std::string spelling of the same thing is tolerated
             if not (is_text and nind == 1):
                 return "charlen is only for a character argument with one level of indirection (docs: size of a char *arg+intent(out))"
-        if shape == DEFAULT_FIRST and (not picks or picks[-1] is None or picks[-1][1] is not True):
+        if attrs.get("intent") in ("out", "inout") and nind == 0 and "(*" not in text and "{A}" not in text:
+            return "intent(%s) on an argument passed by value (docs: non-pointer arguments can only be intent(in))" % attrs["intent"]
+        given = [q for q in picks if q is not None]
+        if shape == DEFAULT_FIRST and (not given or given[-1][1] is not True):
             # (after a valueless attribute, '= 1' is that attribute's value, documented form +name=scalar, not a default)
             return "a parameter without a default value follows one that has a default value (not a C++ declaration)"
     if kind in ("arg", "var", "result"):
@@ -338,6 +341,10 @@ FIELDS = [
 ]
 
 
+# fields whose documented value does not fit the declaration used here ('void f(int a = 1)')
+NOT_VALID_ALONE = ("typemap", "D0/cxx_template", "D0/declarations")
+
+
 class YamlHarness(object):
     """Two fields (engine-chosen, i < j) take an engine-chosen shape each; all others are as documented."""
 
@@ -375,12 +382,19 @@ class YamlHarness(object):
                     target[key] = copy.deepcopy(okv)
             else:
                 target[key] = wrong_value(kind)
+        # the first declaration's mapping may occur a second time (a YAML alias: the same object in two places)
+        self.shared = bool(e.branch(z3.Bool("declaration_is_aliased")))
+        if self.shared and isinstance(d.get("declarations"), list) and d["declarations"] and isinstance(d["declarations"][0], dict):
+            d["declarations"].append({"decl": "namespace second", "declarations": [d["declarations"][0]]})
         self.d = copy.deepcopy(d)
+        if self.shared:
+            # deepcopy keeps the sharing; nothing more to do
+            pass
         generate_only(d)
         return "accepted"
 
     def witness(self, what, extra=None):
-        w = {"kernel": "yaml", "fields": [list(x) for x in self.desc], "input": self.d, "what": what}
+        w = {"kernel": "yaml", "fields": [list(x) for x in self.desc], "input": self.d, "what": what, "aliased": getattr(self, "shared", False)}
         if extra:
             w.update(extra)
         return w
@@ -390,6 +404,10 @@ class YamlHarness(object):
             if isinstance(value, OK_EXC):
                 if self.twin:
                     return {"cls": "yaml", "violation": self.witness("reachability twin"), "vkey": "twin"}
+                if all(k in ("ok", "absent") and f not in NOT_VALID_ALONE and not (f == "D0/decl" and k == "absent") for f, k in self.desc):
+                    return {"cls": "yaml/rejected-valid",
+                            "violation": self.witness("a documented structure is rejected: %s" % str(value).strip().splitlines()[0][:100], {"valid": True}),
+                            "vkey": "yaml/rejected-valid"}
                 return {"cls": "yaml/rejected", "sample": self.witness(None)}
             site = site_of(value)
             return {"cls": "yaml/internal:" + type(value).__name__,
@@ -411,7 +429,13 @@ def confirm(w):
         if w["kernel"] == "attrs":
             generate_only(base_library([copy.deepcopy(w["entry"]) if w.get("entry") else {"decl": w["decl"]}]))
         else:
-            generate_only(copy.deepcopy(w["input"]))
+            inp = copy.deepcopy(w["input"])
+            if w.get("aliased") and isinstance(inp.get("declarations"), list) and len(inp["declarations"]) > 1:
+                try:
+                    inp["declarations"][-1]["declarations"] = [inp["declarations"][0]]       # (a witness read from JSON lost the sharing)
+                except Exception:
+                    pass
+            generate_only(inp)
     except OK_EXC as ex:
         if w.get("valid"):
             return True, {"outcome": "rejected", "message": str(ex)[:200]}
